@@ -1,8 +1,8 @@
-import Gen.Layout
+import Gen.Primitive
 import Model.Const
 import Bridge.Basic
 /-!
-  Bridge for the value-range kernels of `pydsdl/_serializable/_primitive.py` (translated into `Gen/Layout.lean` on every run):
+  Bridge for the value-range kernels of `pydsdl/_serializable/_primitive.py` (translated into `Gen/Primitive.lean` on every run):
   the generated `inclusive_value_range` of signed and unsigned integer types return the model's ranges for every width.
 -/
 set_option linter.unusedSimpArgs false
